@@ -60,6 +60,20 @@ def scenario_of(case):
         elif v == 1:
             scn["checkpoint"]["earlier_call_in_context"] = True
     pre = None
+    if case["run_index"] % 8 == 5:
+        # two sampler-level runs of the SAME fixed schedule into one file, with a cadence longer than the run: each writes only
+        # its end-of-run checkpoint, and the two payloads have the same pickled length but different content
+        scn["api"] = "sampler"
+        scn["checkpoint"] = {"mode": "path", "every": 50}
+        scn["rng_route"] = "sample"
+        scn["sample_kwargs"] = {"sampler_kwargs": dict(scn["sample_kwargs"]["sampler_kwargs"]), "adaptive": False,
+                                "n_steps": int(rng_from(case["fault_seed"] + 6).integers(2, 5))}
+        scn["sample_kwargs"]["sampler_kwargs"].pop("n_final_steps", None)
+        scn["_schedule_mode"] = "fixed+same_size_rerun"
+        pre = copy.deepcopy(scn)
+        pre["seeds"] = {**scn["seeds"], "rng": scn["seeds"]["rng"] + 1}
+        scn["_same_size_rerun"] = True
+        return scn, pre
     if rng.integers(3) == 0:
         pre = copy.deepcopy(scn)
         pre["n_samples"] = scn["n_samples"] * 2 + 7
@@ -73,13 +87,18 @@ def run_case(case, workdir):
     scn, pre = scenario_of(case)
     quick = case.get("tier") == "quick"
     rng = rng_from(case["fault_seed"] + 1)
+    same = bool(scn.get("_same_size_rerun"))
     res = explore(
         scn, workdir, want=WANT, rng=rng, routes=(), pre_run=pre,
-        max_crash_points=case.get("max_crash_points", 80 if quick else None),
-        max_states=case.get("max_states", 1 if quick else 3), second_crash=case.get("second_crash", 8 if quick else 40),
+        # (a sampler-level run writes no configuration: the crash / resume_from_file part does not apply to the same-size variant)
+        max_crash_points=0 if same else case.get("max_crash_points", 80 if quick else None),
+        max_states=case.get("max_states", 1 if quick else 3), second_crash=0 if same else case.get("second_crash", 8 if quick else 40),
     )
+    if same and res.get("ref"):
+        cks = res["ref"]["checkpoints"]
+        res["probes"]["same_size_rerun"] = 1
     out = finish(case, scn, res, pre)
-    n_kill = case.get("sigkill", (1 if case["run_index"] % 6 == 0 else 0) if quick else 2)
+    n_kill = 0 if same else case.get("sigkill", (1 if case["run_index"] % 6 == 0 else 0) if quick else 2)
     if n_kill and not res["aborted"] and "scenario" not in case:
         vs, done = sigkill_sample(scn, workdir, rng_from(case["fault_seed"] + 9), n_kill)
         out["violations"] += vs
